@@ -31,6 +31,25 @@
          `run_caseZ2`    Case (1″B)                    = `C02GenFmaZ.caseZ2`
          `run_mid`       Cases (2)–(6) with their arm   = `C02GenFmaMid.midBlock` (inner loop `'case2_repeat` included)
        and `caseLoop_case7` (first pass, for `caseLoop` itself).  Not yet: Cases (11), (12) (no block definition yet).
+    §6 `HandoverFacts` (what `C02GenFmaFrontSpec.front_spec` hands over; `HandoverFacts.of`), `delta_val`, `zinv`, `zinv_swapped`,
+       `first_pass_swaps`; `ext_fma_case7`, `ext_fma_caseZ1`, `ext_fma_case1517`, `ext_fma_arm26`, `ext_fma_swap_caseZ1`: the
+       registered block specifications (`case7_fma`, `caseZ1_spec`, `case1517_fma`, `arm26_fma`) turned into statements about
+       `bid128_ext_fma` given the hand-over.
+    §7 THE ROUTINE ON NUMBERS.  `ExtFmaOK p1 p2 p3 p4 x y z m f` / `FmaOK x y z m f`: `bid128_ext_fma` / `bid128_fma` return
+       `.ok` of the canonical encoding of the model's `fmaD (modeOf m) (dOf x) (dOf y) (dOf z)` datum and `f ||| flags` (and,
+       for `ext_fma`, some indicators).  For three NUMBERS `x = ±c1·10^e1`, `y = ±c2·10^e2`, `z = ±c3·10^e3`, `c1·c2 ≠ 0`,
+       `c3 ≠ 0`, with `q3 = ndigits c3`, `q4 = ndigits (c1·c2)`, `delta = q3 + e3 − q4 − (e1 + e2)`:
+         `ext_fma_ok_case7` / `fma_ok_case7`        34 < q4, q3 + e3 ≤ e1 + e2                               (Case (7))
+         `ext_fma_ok_case1` / `fma_ok_case1`        delta ≥ 35, or delta = 34 and e3 + 6176 < 34 − q3         (Cases (1), (1′), (1″A))
+         `ext_fma_ok_case8` / `fma_ok_case8`        q4 ≤ 34, −delta ≥ 35, or = 34 and e1+e2+6176 < 34 − q4    (Case (8): swap, then Case (1))
+         `ext_fma_ok_case1517` / `fma_ok_case1517`  34 < q4, e1 + e2 ≤ e3, q3 + e3 < q4 + e1 + e2; given `AarSpec` (Cases (15)–(17))
+         `ext_fma_ok_arm26` / `fma_ok_arm26`        delta ∈ {0, 1}, signs of product and addend differ; given `AarSpec`
+       (`AarSpec` = the correctness of `bid_add_and_round`, C02GenFmaWrap; discharged by C02GenFmaLow when it lands).
+       The remaining cases wait for block specifications: Case (1″B) (`caseZ2`), Cases (2)–(6) and (9), (10), (13), (14), (18)
+       (`midBlock`), Cases (11), (12).
+  Findings: none of its own (the file only transports).  Remarks: the two passes of the loop are two turns of `run`; the
+  hand-over's `p_exp` is NOT clamped above (FrontSpec `hpe`), which the swapped Case (1) needs only for `e1 + e2 ≥ −6176`
+  (automatic in Case (8)).
 -/
 import Lean.Elab.Tactic
 import Lean.Meta.AppBuilder
@@ -1165,6 +1184,43 @@ theorem ext_fma_ok_arm26 (haar : AarSpec) (p1 p2 p3 p4 : Bool)
   unfold ExtFmaOK; rw [hx, hy, hz]
   exact ext_fma_arm26 haar p1 p2 p3 p4 x y z m f (HandoverFacts.of hh h12 h3) tmp hfront hd0 hd1 hsign
 
+/-! the same for `bid128_fma` -/
+
+theorem fma_ok_case7 (h34 : 34 < ndigits (c1 * c2)) (hlow : (ndigits c3 : Int) + e3 ≤ e1 + e2) : FmaOK x y z m f :=
+  FmaOK.of_ext (ext_fma_ok_case7 x y z m f hx hy hz h12 h3 _ _ _ _ h34 hlow)
+
+theorem fma_ok_case1
+    (hcase : 35 ≤ (ndigits c3 : Int) + e3 - ndigits (c1 * c2) - (e1 + e2) ∨
+      ((ndigits c3 : Int) + e3 - ndigits (c1 * c2) - (e1 + e2) = 34 ∧ e3 + 6176 < 34 - (ndigits c3 : Int))) :
+    FmaOK x y z m f :=
+  FmaOK.of_ext (ext_fma_ok_case1 x y z m f hx hy hz h12 h3 _ _ _ _ hcase)
+
+theorem fma_ok_case8 (hq4 : ndigits (c1 * c2) ≤ 34)
+    (hcase : 35 ≤ (ndigits (c1 * c2) : Int) + (e1 + e2) - ndigits c3 - e3 ∨
+      ((ndigits (c1 * c2) : Int) + (e1 + e2) - ndigits c3 - e3 = 34 ∧ (e1 + e2) + 6176 < 34 - (ndigits (c1 * c2) : Int))) :
+    FmaOK x y z m f :=
+  FmaOK.of_ext (ext_fma_ok_case8 x y z m f hx hy hz h12 h3 _ _ _ _ hq4 hcase)
+
+theorem fma_ok_case1517 (haar : Dec.C02GenFmaWrap.AarSpec) (h34 : 34 < ndigits (c1 * c2))
+    (hlo : e1 + e2 ≤ e3) (hd : (ndigits c3 : Int) + e3 < ndigits (c1 * c2) + (e1 + e2)) : FmaOK x y z m f :=
+  FmaOK.of_ext (ext_fma_ok_case1517 x y z m f hx hy hz h12 h3 haar _ _ _ _ h34 hlo hd)
+
+theorem fma_ok_arm26 (haar : Dec.C02GenFmaWrap.AarSpec)
+    (hd0 : 0 ≤ (ndigits c3 : Int) + e3 - ndigits (c1 * c2) - (e1 + e2))
+    (hd1 : (ndigits c3 : Int) + e3 - ndigits (c1 * c2) - (e1 + e2) ≤ 1) (hsign : (s1 != s2) ≠ s3) : FmaOK x y z m f :=
+  FmaOK.of_ext (ext_fma_ok_arm26 x y z m f hx hy hz h12 h3 haar _ _ _ _ hd0 hd1 hsign)
+
 end final
+
+-- Case (7) through `bid128_fma`: x = (10^17 + 1)E0, y = (10^17 + 5)E0 (product 35 digits), z = 3E−2: by the theorem …
+example : FmaOK ⟨100000000000000001, 0x3040000000000000⟩ ⟨100000000000000005, 0x3040000000000000⟩ ⟨3, 0x303c000000000000⟩
+    .NearestEven 0 :=
+  fma_ok_case7 _ _ _ _ _ (s1 := false) (c1 := 10^17 + 1) (e1 := 0) (s2 := false) (c2 := 10^17 + 5) (e2 := 0) (s3 := false)
+    (c3 := 3) (e3 := -2) (by decide +kernel) (by decide +kernel) (by decide +kernel) (by decide) (by decide)
+    (by decide +kernel) (by decide +kernel)
+-- … and by running the translated routine
+example : (bid128_fma ⟨100000000000000001, 0x3040000000000000⟩ ⟨100000000000000005, 0x3040000000000000⟩
+      ⟨3, 0x303c000000000000⟩ .NearestEven 0).toOption =
+    some (ofBits (encode (.fin false 1000000000000000060000000000000001 1)), 0x20) := by decide +kernel
 
 end Dec.C02GenFmaAssembly
